@@ -26,7 +26,10 @@ KERNELS = {
     "fuzzy_as_int": "number::fuzzy_as_int",
     "modulo": "modulo",
     "hue_to_rgb": "hue_to_rgb",
+    "update_value": "update_value",
 }
+# kernels that cannot be called natively in isolation (nested fn): validated through the public API instead
+INDIRECT = {"update_value"}
 ARITY = {"fuzzy_round": 1, "fuzzy_equals": 2, "fuzzy_less_than": 2, "fuzzy_less_than_or_equals": 2, "fuzzy_as_int": 1,
          "modulo": 2, "hue_to_rgb": 3}
 
@@ -150,6 +153,13 @@ int main(void) {
     else if (!strcmp(k, "fuzzy_less_than_or_equals")) r = KERNEL_fuzzy_less_than_or_equals(x, y);
     else if (!strcmp(k, "modulo")) r = d2b(KERNEL_modulo(x, y));
     else if (!strcmp(k, "hue_to_rgb")) r = d2b(KERNEL_hue_to_rgb(x, y, z));
+    else if (!strcmp(k, "update_value")) {
+      /* indirect: alpha component, max = 1, mode in a[2]; the constructor clamps alpha afterwards */
+      opt_number p = { 1, { y } }; rs_number c = { x };
+      double v = KERNEL_update_value(c, p, 1.0, (unsigned char)strtoull(a[2], 0, 16)).f0;
+      v = v < 0.0 ? 0.0 : (v > 1.0 ? 1.0 : v);
+      r = d2b(v);
+    }
     else if (!strcmp(k, "fuzzy_as_int")) { opt_i64 o = KERNEL_fuzzy_as_int(x); r = o.some ? (unsigned long long)o.f0 : 0x8000000000000001ULL; }
     else return 2;
     printf("0x%016llx\n", r);
@@ -176,11 +186,34 @@ def validate(seed):
     la, lb = a.stdout.split(), b.stdout.split()
     if a.returncode != 0 or b.returncode != 0 or len(la) != len(ins) or len(lb) != len(ins):
         return False, "validation run failed (rc %s/%s, %d/%d/%d lines) %s %s" % (a.returncode, b.returncode, len(la), len(lb), len(ins), a.stderr[-300:], b.stderr[-300:]), 0
+    # indirect validation of update_value through the public API (alpha of change-/adjust-/scale-color)
+    import random
+    rnd = random.Random(99 + seed)
+    upd = []
+    for mode in (0, 1, 2):
+        for _ in range(40):
+            a = round(rnd.random(), 3)
+            p_ = round(rnd.uniform(-1, 1), 3) if mode != 0 else round(rnd.random(), 3)
+            upd.append((mode, a, p_))
+    t_api = "".join("%d %s %s\n" % (m_, a, (p_ * 100 if m_ == 2 else p_)) for m_, a, p_ in upd)
+    t_c = "".join("update_value %s %s 0x%x\n" % (f2h(a), f2h(p_), m_) for m_, a, p_ in upd)
+    ra = subprocess.run([exe, "eval-update"], input=t_api, text=True, capture_output=True).stdout.split()
+    rc = subprocess.run([os.path.join(OUT, "validate")], input=t_c, text=True, capture_output=True).stdout.split()
+    if len(ra) != len(upd) or len(rc) != len(upd):
+        return False, "indirect validation of update_value failed to run (%d/%d/%d)" % (len(ra), len(rc), len(upd)), 0
+    for (m_, a, p_), x, y in zip(upd, ra, rc):
+        try:
+            xa = float(x)
+        except ValueError:
+            return False, "indirect validation: public API failed on mode=%d a=%s p=%s: %s" % (m_, a, p_, x), 0
+        yc = struct.unpack("<d", struct.pack("<Q", int(y, 16)))[0]
+        if abs(xa - yc) > 2e-9:
+            return False, "translation of update_value disagrees with the public API: mode=%d current=%s param=%s API=%s C=%r" % (m_, a, p_, x, yc), 0
     nan = lambda h: (int(h, 16) & 0x7ff0000000000000) == 0x7ff0000000000000 and (int(h, 16) & 0xfffffffffffff) != 0
     for (k, args), x, y in zip(ins, la, lb):
         if x != y and not (k in ("fuzzy_round", "modulo", "hue_to_rgb") and nan(x) and nan(y)):
             return False, "translation disagrees with the real function: %s%s C=%s Rust=%s" % (k, [f2h(v) for v in args], x, y), 0
-    return True, "%d inputs agree" % len(ins), len(ins)
+    return True, "%d inputs agree (+%d update_value cases through the public API)" % (len(ins), len(upd)), len(ins) + len(upd)
 
 
 def run_prop(name, inputs, unwind, timeout_s, logdir, extra=()):
@@ -231,6 +264,43 @@ def run_prop(name, inputs, unwind, timeout_s, logdir, extra=()):
     return out
 
 
+REPLAY_MAIN = r"""
+#include <stdio.h>
+#include <string.h>
+#include <stdlib.h>
+int prop_failed; const char *prop_msg;
+static int g_argc; static char **g_argv;
+unsigned long long rs_input(const char *name) {
+  size_t n = strlen(name);
+  for (int i = 1; i < g_argc; i++) if (!strncmp(g_argv[i], name, n) && g_argv[i][n] == '=') return strtoull(g_argv[i] + n + 1, 0, 16);
+  return 0;
+}
+int prop_main(void);
+int main(int argc, char **argv) { g_argc = argc; g_argv = argv; prop_main(); if (prop_failed) { printf("VIOLATED %s\n", prop_msg); return 1; } printf("HOLDS\n"); return 0; }
+"""
+
+
+def c_native_check(prop, names, hexes, extra):
+    """Replay on the natively compiled translation (for kernels that are not callable natively in isolation, e.g. nested fns;
+    the translation itself is validated against the real code through the public API on every run)."""
+    open(os.path.join(OUT, "replay_main.c"), "w").write(REPLAY_MAIN)
+    exe = os.path.join(OUT, "replay_" + prop)
+    p = subprocess.run(["gcc", "-O0", "-ffp-contract=off", "-Dmain=prop_main", "-c", os.path.join(FK, "props", prop + ".c"), "-I",
+                        os.path.join(FK, "props"), "-I", OUT, "-o", exe + ".o"] + list(extra), text=True, capture_output=True)
+    if p.returncode != 0:
+        return "error", p.stderr[-800:]
+    p = subprocess.run(["gcc", "-O0", os.path.join(OUT, "replay_main.c"), exe + ".o", "-o", exe, "-lm"], text=True, capture_output=True)
+    if p.returncode != 0:
+        return "error", p.stderr[-800:]
+    args = ["%s=%s" % (n, h) for n, h in zip(names, hexes) if h is not None]
+    r = subprocess.run([exe] + args, text=True, capture_output=True)
+    if r.returncode == 1 and "VIOLATED" in r.stdout:
+        return "fail", r.stdout.strip() + " [replayed on the natively compiled MIR->C translation]"
+    if r.returncode == 0:
+        return "pass", r.stdout.strip()
+    return "error", (r.stdout + r.stderr)[-500:]
+
+
 def native_check(prop, hexes):
     exe, msg = engine_t.build_native()
     if exe is None:
@@ -268,7 +338,7 @@ def make_engine(pid, props):
             if r["verdict"] == "pass" and any(v != "Satisfied" for v in r.get("covers", {}).values()):
                 r = {"verdict": "inconclusive", "reason": "vacuity: witness not reachable: %s" % r["covers"], "wall": r["wall"]}
             res["solver_s"] += r.get("solver_s", 0) or 0
-            sample = {"engine": "cbmc-c", "harness": pr["name"], "bound": pr["bound"], "verdict": r["verdict"],
+            sample = {"engine": "cbmc-c", "harness": (pr["name"] + " " + " ".join(pr.get("extra", ()))).strip(), "bound": pr["bound"], "verdict": r["verdict"],
                       "checks_decided": r.get("checks"), "covers": r.get("covers"), "duration_s": round(r.get("wall", 0), 1), "solver_s": r.get("solver_s")}
             res["samples"].append(sample)
             if r["verdict"] == "pass":
@@ -283,9 +353,12 @@ def make_engine(pid, props):
                 for f in r["failed"]:
                     if "unwinding" in f["desc"]:
                         continue
-                    if None in f["inputs"]:
+                    if pr.get("replay") == "c-native":
+                        st, txt = c_native_check(pr["name"], pr["inputs"], f["inputs"], pr.get("extra", ()))
+                    elif None in f["inputs"]:
                         continue
-                    st, txt = native_check(pr["name"], f["inputs"])
+                    else:
+                        st, txt = native_check(pr["name"], f["inputs"])
                     f["native"] = st
                     if st == "fail":
                         rp = os.path.join(runner.EVID, "%s.replay.json" % pid)
